@@ -109,13 +109,14 @@ REG["C04"] = {
     "units": ["escaping"],
     "scope": "equal: matches iff line == expr + LF; no-eol: iff line == expr; escaped: matches iff stored bytes == line without trailing LFs, and the stored bytes are "
              "decode(expr) = resolve(unesc(expr)) (both decoders verified against recursive specs); regex: the pattern handed to the regex crate is ^(?:cleaned)$ and the candidate is "
-             "the line without trailing LFs; glob (wildmatch) and Cram glob: candidate is lossy/bytes of the line without trailing LFs. newline helpers trim_newlines/assure_newline/ends_in_newline verified.",
+             "the line without trailing LFs; glob (wildmatch) and Cram glob: candidate is lossy/bytes of the line without trailing LFs. newline helpers trim_newlines/assure_newline/ends_in_newline verified. "
+             "EscapedRule::make stores decode(expression minus a trailing ` (no-eol)`); GlobRule::make hands wildmatch the expression itself or, when it carries an ` (escaped)`/` (esc)` marker "
+             "(expression_as_escaped == as_escaped, all str slices proved to be on char boundaries), its decoded text (apply_escaped_filter_utf8).",
     "assumptions": ESC_TRUST + [
         "the matching semantics of the regex and wildmatch crates (uninterpreted regex_lang / wild_lang): `?` = one char, `*` = any run, and L(^(?:e)$) = whole-string L(e) are NOT proved",
         "the three best-effort regex clean-ups are uninterpreted (their effect on L(e) is not specified by the property)",
     ],
-    "not_decided": ["EscapedRule::make's ` (no-eol)` suffix stripping and GlobRule/CramGlobRule::make (str slicing: vstd cannot discharge char-boundary preconditions)",
-                    "glob_to_regex_string translation table", "kind dispatch in RuleRegistry (regex-based, C08)"],
+    "not_decided": ["CramGlobRule::make and the glob_to_regex_string translation table", "kind dispatch in RuleRegistry (regex-based, C08)"],
 }
 
 REG["C11"] = {
